@@ -11,6 +11,10 @@ if args and args[0] == "--round4":
     root, tag, args = "/tmp/seed4", "r4", args[1:]
 if args and args[0] == "--round5":
     root, tag, args = "/tmp/seed5", "r5", args[1:]
+if args and args[0] == "--round6":
+    root, tag, args = "/tmp/seed6", "r6", args[1:]
+if args and args[0] == "--round7":
+    root, tag, args = "/tmp/seed7", "r7", args[1:]
 for pid in args:
     src = "%s/%s-out" % (root, pid)
     for i in ("1", "2", "3"):
